@@ -164,6 +164,12 @@ func BinarySearchFunc(eval func(int) int, end int, toFind int) int {
 	for start != end {
 		mid := (start + end) / 2
 		val := eval(mid)
+		if toFind > val {
+			// mid is strictly below the insertion point; without this, start = mid makes no
+			// progress once end == start+1 and the search never terminates
+			start = mid + 1
+			continue
+		}
 		if toFind >= val {
 			start = mid
 		}
